@@ -768,10 +768,16 @@ static void case_plist(const PV& deltas, bool closed, int64_t mult) {
     auto cj = [&](const Bytes& enc, const std::string& got) {
         return jobj({{"vertices_relative_to_first", jpts(V)}, {"closed", jbool(closed)}, {"encoding", jstr(hexb(enc))}, {"gdstk", jstr(got)}});
     };
-    // ---------- writer -> reader, writer -> reference decoder
-    {
+    // ---------- writer -> reader, writer -> reference decoder, for several first vertices p0.
+    // The writer turns points[] into deltas in place, so p0's coordinates are chosen to collide with
+    // delta values of the alphabet (p0.x or p0.y equal to a delta component, scaled like the deltas):
+    // any mix-up of absolute vertices and deltas then changes the list type or the bytes.
+    static const P2 FIRST[6] = {{0, 0}, {1, 5}, {-2, 5}, {3, -2}, {-2, -2}, {7, -3}};
+    const int nfirst = D.size() <= 4 ? 6 : 3;
+    for (int fi = 0; fi < nfirst; fi++) {
         std::string replay = std::string("sub=") + sub_rt + " " + rargs;
-        const P2 wref = {7, -3};
+        const P2 wref = {FIRST[fi].x * mult, FIRST[fi].y * mult};
+        R->count("plist_writer_cases");
         Array<IntVec2> a = {};
         for (auto& p : V) a.append(IntVec2{wref.x + p.x, wref.y + p.y});
         WS w;
@@ -782,35 +788,47 @@ static void case_plist(const PV& deltas, bool closed, int64_t mult) {
         int t = enc.empty() ? -1 : enc[0];
         JFields tags = base_tags;
         tags.push_back({"written_type", jint(t)});
+        tags.push_back({"first_vertex", jstr(fmt("(%lld,%lld)*mult", (long long)FIRST[fi].x, (long long)FIRST[fi].y))});
+        auto cjw = [&](const Bytes& e, const std::string& got) {
+            PV abs;
+            for (auto& p : V) abs.push_back({wref.x + p.x, wref.y + p.y});
+            return jobj({{"vertices", jpts(abs)}, {"closed", jbool(closed)}, {"encoding", jstr(hexb(e))}, {"gdstk", jstr(got)}});
+        };
         if (t >= 0 && t <= 5) R->count(std::string("plist_written_as_") + PLTYPE[t]);
         R->outcome(sub_rt, fmt("type=%d closed=%d n=%d", t, (int)closed, (int)D.size()));
         // reference decode of gdstk's bytes
         PV refv = {{0, 0}};
         size_t pos = 0;
         bool refok = get_plist(enc, pos, closed, refv) && pos == enc.size();
-        VLOG("write_point_list(%s, closed=%d) -> %s (type %d); reference decode -> %s%s\n", jpts(V).c_str(), (int)closed, hexb(enc).c_str(), t, refok ? jpts(refv).c_str() : "malformed", refok && refv == V ? "" : "  ** differs **");
-        if (!refok || refv != V) R->violation(sub_rt, "encoding_denotes_other_list", tags, cj(enc, refok ? jpts(refv) : "malformed"), "the bytes written do not denote the vertex list according to the reference decoder", replay);
-        // gdstk read-back, scaling 1, other reference vertex
-        Vec2 rref = {-2, 5};
+        VLOG("first vertex (%lld,%lld): write_point_list(%s + p0, closed=%d) -> %s (type %d); reference decode -> %s%s\n", (long long)wref.x, (long long)wref.y, jpts(V).c_str(), (int)closed, hexb(enc).c_str(), t,
+             refok ? jpts(refv).c_str() : "malformed", refok && refv == V ? "" : "  ** differs **");
+        if (!refok || refv != V) R->violation(sub_rt, "encoding_denotes_other_list", tags, cjw(enc, refok ? jpts(refv) : "malformed"), "the bytes written do not denote the vertex list according to the reference decoder", replay);
+        // gdstk read-back into absolute coordinates (first vertex = p0), scaling 1
+        Vec2 rref = {(double)wref.x, (double)wref.y};
         PlRead o = gd_read_plist(enc, rref, 1.0, closed);
         VLOG("read_point_list -> %s ret=%llu error_code=%s consumed=%ld of %zu\n", jvec(o.pts).c_str(), (unsigned long long)o.ret, ecname(o.ec), o.consumed, enc.size());
-        if (o.ec != ErrorCode::NoError) R->violation(sub_rt, "decode_error_flag", tags, cj(enc, ecname(o.ec)), "reading back the written list sets an error", replay);
-        else if (!pl_same(o, V, rref, 1.0)) R->violation(sub_rt, "list_changed", tags, cj(enc, jvec(o.pts)), "read(write(list)) != list", replay);
-        else if (o.ret != N - 1) R->violation(sub_rt, "return_count", tags, cj(enc, fmt("returned %llu", (unsigned long long)o.ret)), "returned vertex count differs from the number of vertices appended", replay);
-        else if (o.consumed != (long)enc.size()) R->violation(sub_rt, "decode_framing", tags, cj(enc, fmt("consumed %ld", o.consumed)), "decoder consumed a different number of bytes than were written", replay);
+        if (o.ec != ErrorCode::NoError) R->violation(sub_rt, "decode_error_flag", tags, cjw(enc, ecname(o.ec)), "reading back the written list sets an error", replay);
+        else if (!pl_same(o, V, rref, 1.0)) R->violation(sub_rt, "list_changed", tags, cjw(enc, jvec(o.pts)), "read(write(list)) != list (absolute vertices)", replay);
+        else if (o.ret != N - 1) R->violation(sub_rt, "return_count", tags, cjw(enc, fmt("returned %llu", (unsigned long long)o.ret)), "returned vertex count differs from the number of vertices appended", replay);
+        else if (o.consumed != (long)enc.size()) R->violation(sub_rt, "decode_framing", tags, cjw(enc, fmt("consumed %ld", o.consumed)), "decoder consumed a different number of bytes than were written", replay);
         // the Vec2 overload (scaling 2 on half-integer coordinates) must write the same bytes; read back with scaling 1/2
         if (D.size() <= 4) {   // 5-delta lists: the overload/scaling variants add nothing over <= 4 deltas
-        Array<Vec2> av = {};
-        for (auto& p : V) av.append(Vec2{0.5 * (double)(wref.x + p.x), 0.5 * (double)(wref.y + p.y)});
-        WS w2;
-        oasis_write_point_list(w2.s, av, 2.0, closed);
-        av.clear();
-        Bytes enc2 = w2.bytes();
-        R->count("codec_calls");
-        if (enc2 != enc) R->violation(sub_rt, "vec2_writer_differs", tags, cj(enc, hexb(enc2)), "the Vec2 overload (scaling 2) writes different bytes than the IntVec2 overload for the same lattice points", replay);
-        PlRead o2 = gd_read_plist(enc, Vec2{0, 0}, 0.5, closed);
-        if (o2.ec == ErrorCode::NoError && o.ec == ErrorCode::NoError && pl_same(o, V, rref, 1.0) && !pl_same(o2, V, Vec2{0, 0}, 0.5))
-            R->violation(sub_rt, "list_changed_scaled", tags, cj(enc, jvec(o2.pts)), "read with scaling 0.5 is not the scaled list", replay);
+            Array<Vec2> av = {};
+            for (auto& p : V) av.append(Vec2{0.5 * (double)(wref.x + p.x), 0.5 * (double)(wref.y + p.y)});
+            WS w2;
+            oasis_write_point_list(w2.s, av, 2.0, closed);
+            av.clear();
+            Bytes enc2 = w2.bytes();
+            R->count("codec_calls");
+            if (enc2 != enc) R->violation(sub_rt, "vec2_writer_differs", tags, cjw(enc, hexb(enc2)), "the Vec2 overload (scaling 2) writes different bytes than the IntVec2 overload for the same lattice points", replay);
+            PV refv2 = {{0, 0}};
+            size_t pos2 = 0;
+            bool refok2 = get_plist(enc2, pos2, closed, refv2) && pos2 == enc2.size();
+            if (!refok2 || refv2 != V) R->violation(sub_rt, "vec2_encoding_denotes_other_list", tags, cjw(enc2, refok2 ? jpts(refv2) : "malformed"), "the bytes written by the Vec2 overload do not denote the vertex list according to the reference decoder", replay);
+            Vec2 half = {0.5 * (double)wref.x, 0.5 * (double)wref.y};
+            PlRead o2 = gd_read_plist(enc2, half, 0.5, closed);
+            if (o2.ec != ErrorCode::NoError || !pl_same(o2, V, half, 0.5))
+                R->violation(sub_rt, "list_changed_scaled", tags, cjw(enc2, jvec(o2.pts)), "Vec2 writer (scaling 2) -> reader (scaling 0.5) does not give back the half-integer vertex list", replay);
         }
     }
     // ---------- reference encoder (each type that can express the list) -> gdstk reader
@@ -859,7 +877,7 @@ static void plist_checks(bool T) {
         bool ok = parallel_for(*R, nch, body, [&](int64_t c) { return jobj({{"chunk", jint(c)}, {"first_list_of_chunk", jpts(plist_deltas(D, c * chunk))}}); },
                                [&](int64_t c) { return fmt("sub=%s chunk=%lld", sub.c_str(), (long long)c); }, PFOptions{120, sub, true});
         R->sample(sub, jobj({{"deltas", jpts(plist_deltas(D, total / 3))}}));
-        R->bound(sub, fmt("all 25^%d lists of %d deltas from {-2..2}^2 x {open, closed} x delta multipliers {%s}: IntVec2 writer (and, up to 4 deltas, Vec2 writer with scaling) -> gdstk reader and reference decoder; every expressible list type (0-5 and all-form-2 general) by the reference encoder -> gdstk reader",
+        R->bound(sub, fmt("all 25^%d lists of %d deltas from {-2..2}^2 x {open, closed} x delta multipliers {%s}: x first vertices p0*mult, p0 in {(0,0),(1,5),(-2,5),(3,-2),(-2,-2),(7,-3)} (first 3 only for 5 deltas) whose coordinates collide with delta values: IntVec2 writer (and, up to 4 deltas, Vec2 writer with scaling 2) -> gdstk reader into absolute vertices and reference decoder; every expressible list type (0-5 and all-form-2 general) by the reference encoder -> gdstk reader",
                           D, D, mults.size() == 3 ? "1,8,64" : mults.size() == 2 ? "1,64" : "1"),
                  ok, total * 2 * (int64_t)mults.size());
     }
